@@ -5,11 +5,12 @@ import IastModel.Lemmas.ErSrcR
 -/
 namespace IastModel
 open Node
+variable {cfg : Config}
 
-theorem noOpt_eq (n : Node) : noOpt n = (noOptK n && n.kids.all noOpt) := by
+theorem noOpt_eq (n : Node) : noOpt cfg n = (noOptK cfg n && n.kids.all (noOpt cfg)) := by
   unfold noOpt; rw [Node.all_eq]
 
-theorem noOpt_kids {n : Node} (h : noOpt n = true) : ∀ k ∈ n.kids, noOpt k = true := by
+theorem noOpt_kids {n : Node} (h : noOpt cfg n = true) : ∀ k ∈ n.kids, noOpt cfg k = true := by
   rw [noOpt_eq, Bool.and_eq_true] at h
   intro k hk; exact List.all_eq_true.mp h.2 k hk
 
